@@ -423,3 +423,626 @@ pub proof fn lemma_br_equal_content_all(x: Brick, y: Brick)
         lemma_br_equal_content(x, y, r, w);
     }
 }
+
+// ---------------- generate_permutations_of_fixed_length ---------------------------------------------------------------------
+
+/// vstd gives, for the ghost sequence of `set.iter()`: no duplicates, as long as the set, every member occurs.  By
+/// cardinality every element of the sequence is then a member.  (broadcast: makes br_iter_of available at loop entry)
+pub broadcast proof fn lemma_br_iter_complete(s: Seq<&String>, set: Set<String>)
+    requires
+        s.no_duplicates(),
+        s.len() == set.len(),
+        forall |k: String| set.contains(k) ==> s.contains(&k),
+    ensures
+        #[trigger] br_iter_of(s, set),
+{
+    let t = s.map_values(|k: &String| *k);
+    assert(t.no_duplicates()) by {
+        assert forall |i: int, j: int| 0 <= i < t.len() && 0 <= j < t.len() && i != j implies t[i] != t[j] by {
+            assert(s[i] != s[j]);
+        }
+    }
+    t.unique_seq_to_set();
+    assert(set.subset_of(t.to_set())) by {
+        assert forall |k: String| set.contains(k) implies t.to_set().contains(k) by {
+            assert(s.contains(&k));
+            let i = choose |i: int| 0 <= i < s.len() && s[i] == &k;
+            assert(t[i] == k);
+            assert(t.contains(k));
+        }
+    }
+    vstd::set_lib::lemma_subset_equality(set, t.to_set());
+    assert forall |i: int| 0 <= i < s.len() implies set.contains(*#[trigger] s[i]) by {
+        assert(t[i] == *s[i]);
+        assert(t.contains(t[i]));
+        assert(t.to_set().contains(t[i]));
+    }
+    assert forall |k: String| set.contains(k) implies exists |i: int| 0 <= i < s.len() && *#[trigger] s[i] == k by {
+        assert(s.contains(&k));
+        let i = choose |i: int| 0 <= i < s.len() && s[i] == &k;
+        assert(*s[i] == k);
+    }
+}
+
+pub proof fn lemma_br_in_vec_push_all()
+    ensures
+        forall |v: Seq<String>, t: String, x: Seq<char>| #[trigger] br_in_vec(v.push(t), x) <==> (br_in_vec(v, x) || t@ == x),
+{
+    assert forall |v: Seq<String>, t: String, x: Seq<char>| #[trigger] br_in_vec(v.push(t), x) <==> (br_in_vec(v, x) || t@ == x) by {
+        let p = v.push(t);
+        if br_in_vec(p, x) {
+            let i = choose |i: int| 0 <= i < p.len() && (#[trigger] p[i])@ == x;
+            if i < v.len() { assert(v[i]@ == x); }
+        }
+        if br_in_vec(v, x) {
+            let i = choose |i: int| 0 <= i < v.len() && (#[trigger] v[i])@ == x;
+            assert(p[i]@ == x);
+        }
+        if t@ == x { assert(p[v.len() as int]@ == x); }
+    }
+}
+
+/// one round of the outer loop, both branches
+pub proof fn lemma_br_gen_steps(members: Seq<&String>, oi: int, generated: Seq<String>)
+    requires 0 <= oi < members.len(),
+    ensures
+        generated.len() == 0 ==> forall |x: Seq<char>| #[trigger] br_gen_partial(members, oi + 1, generated, x)
+            <==> (br_gen_partial(members, oi, generated, x) || x == members[oi]@),
+        generated.len() > 0 ==> forall |x: Seq<char>| #[trigger] br_gen_partial(members, oi + 1, generated, x)
+            <==> (br_gen_partial(members, oi, generated, x) || br_gen_row(members[oi]@, generated, generated.len() as int, x)),
+{
+    let m = members[oi]@;
+    assert forall |x: Seq<char>| #[trigger] br_gen_partial(members, oi + 1, generated, x)
+        <==> (br_gen_partial(members, oi, generated, x) || (if generated.len() == 0 { x == m } else { br_gen_row(m, generated, generated.len() as int, x) })) by {
+        if br_gen_partial(members, oi + 1, generated, x) {
+            let (j, g) = choose |j: int, g: Seq<char>| #![trigger g + members[j]@] 0 <= j < oi + 1 && br_prefix(generated, g) && x =~= g + members[j]@;
+            if j < oi {
+                assert(br_gen_partial(members, oi, generated, x));
+            } else if generated.len() == 0 {
+                assert(x =~= m);
+            } else {
+                let k = choose |k: int| 0 <= k < generated.len() && (#[trigger] generated[k])@ == g;
+                assert(x =~= generated[k]@ + m);
+            }
+        }
+        if br_gen_partial(members, oi, generated, x) {
+            let (j, g) = choose |j: int, g: Seq<char>| #![trigger g + members[j]@] 0 <= j < oi && br_prefix(generated, g) && x =~= g + members[j]@;
+            assert(0 <= j < oi + 1 && br_prefix(generated, g) && x =~= g + members[j]@);
+        }
+        if generated.len() == 0 && x == m {
+            let e = Seq::<char>::empty();
+            assert(br_prefix(generated, e) && x =~= e + members[oi]@);
+        }
+        if generated.len() > 0 && br_gen_row(m, generated, generated.len() as int, x) {
+            let k = choose |k: int| 0 <= k < generated.len() && x =~= (#[trigger] generated[k])@ + m;
+            let g = generated[k]@;
+            assert(br_in_vec(generated, g));
+            assert(br_prefix(generated, g) && x =~= g + members[oi]@);
+        }
+    }
+}
+
+/// one step of the inner loop
+pub proof fn lemma_br_gen_row_step(s: Seq<char>, generated: Seq<String>, ii: int)
+    requires 0 <= ii < generated.len(),
+    ensures
+        forall |x: Seq<char>| #[trigger] br_gen_row(s, generated, ii + 1, x) <==> (br_gen_row(s, generated, ii, x) || x == generated[ii]@ + s),
+{
+    assert forall |x: Seq<char>| #[trigger] br_gen_row(s, generated, ii + 1, x) <==> (br_gen_row(s, generated, ii, x) || x == generated[ii]@ + s) by {
+        if br_gen_row(s, generated, ii + 1, x) {
+            let k = choose |k: int| 0 <= k < ii + 1 && x =~= (#[trigger] generated[k])@ + s;
+            if k < ii { assert(br_gen_row(s, generated, ii, x)); }
+        }
+        if br_gen_row(s, generated, ii, x) {
+            let k = choose |k: int| 0 <= k < ii && x =~= (#[trigger] generated[k])@ + s;
+            assert(0 <= k < ii + 1 && x =~= generated[k]@ + s);
+        }
+        if x == generated[ii]@ + s { assert(x =~= generated[ii]@ + s); }
+    }
+}
+
+/// after the outer loop: the new strings are exactly prefix + one member
+pub proof fn lemma_br_gen_round(members: Seq<&String>, set: Set<String>, generated: Seq<String>, x: Seq<char>)
+    requires br_iter_of(members, set),
+    ensures br_gen_partial(members, members.len() as int, generated, x) <==> br_gen_spec(set, generated, 1, x),
+{
+    if br_gen_partial(members, members.len() as int, generated, x) {
+        let (j, g) = choose |j: int, g: Seq<char>| #![trigger g + members[j]@] 0 <= j < members.len() && br_prefix(generated, g) && x =~= g + members[j]@;
+        assert(set.contains(*members[j]));
+        assert(br_member(set, members[j]@));
+        lemma_br_pow_one(set, members[j]@);
+        assert(x =~= g + members[j]@);
+    }
+    if br_gen_spec(set, generated, 1, x) {
+        let (g, y) = choose |g: Seq<char>, y: Seq<char>| #![trigger g + y] br_prefix(generated, g) && br_pow(set, 1, y) && x =~= g + y;
+        lemma_br_pow_one(set, y);
+        let s = choose |s: String| #[trigger] set.contains(s) && s@ == y;
+        let j = choose |j: int| 0 <= j < members.len() && *#[trigger] members[j] == s;
+        assert(x =~= g + members[j]@);
+    }
+}
+
+/// the recursive call: extending the strings of one round by n more members gives n + 1 members
+pub proof fn lemma_br_gen_rec(set: Set<String>, generated: Seq<String>, new_gen: Seq<String>, n: nat, x: Seq<char>)
+    requires
+        n >= 1,
+        forall |z: Seq<char>| #[trigger] br_in_vec(new_gen, z) <==> br_gen_spec(set, generated, 1, z),
+    ensures
+        br_gen_spec(set, new_gen, n, x) <==> br_gen_spec(set, generated, n + 1, x),
+{
+    if br_gen_spec(set, new_gen, n, x) {
+        let (g, y) = choose |g: Seq<char>, y: Seq<char>| #![trigger g + y] br_prefix(new_gen, g) && br_pow(set, n, y) && x =~= g + y;
+        if new_gen.len() == 0 {
+            // no string was produced: the set has no member, so there is no y either
+            let (a, b) = choose |a: Seq<char>, b: Seq<char>| #![trigger a + b] br_member(set, a) && br_pow(set, (n - 1) as nat, b) && y =~= a + b;
+            let g0 = if generated.len() == 0 { Seq::<char>::empty() } else { generated[0]@ };
+            assert(br_prefix(generated, g0)) by { if generated.len() > 0 { assert(br_in_vec(generated, generated[0]@)); } }
+            lemma_br_pow_one(set, a);
+            assert(g0 + a =~= g0 + a);
+            assert(br_gen_spec(set, generated, 1, g0 + a));
+            assert(br_in_vec(new_gen, g0 + a));
+            assert(false);
+        } else {
+            assert(br_in_vec(new_gen, g));
+            let (g1, y1) = choose |g1: Seq<char>, y1: Seq<char>| #![trigger g1 + y1] br_prefix(generated, g1) && br_pow(set, 1, y1) && g =~= g1 + y1;
+            lemma_br_pow_add(set, 1, n, y1, y);
+            assert(x =~= g1 + (y1 + y));
+        }
+    }
+    if br_gen_spec(set, generated, n + 1, x) {
+        let (g, y) = choose |g: Seq<char>, y: Seq<char>| #![trigger g + y] br_prefix(generated, g) && br_pow(set, n + 1, y) && x =~= g + y;
+        let uv = lemma_br_pow_split(set, 1, n, y);
+        assert(g + uv.0 =~= g + uv.0);
+        assert(br_gen_spec(set, generated, 1, g + uv.0));
+        assert(br_in_vec(new_gen, g + uv.0));
+        assert(new_gen.len() > 0);
+        assert(br_prefix(new_gen, g + uv.0));
+        assert(x =~= (g + uv.0) + uv.1);
+    }
+}
+
+// ---------------- rules 3 and 5 of normalize ----------------------------------------------------------------------------------
+
+/// a brick {1,1} represents exactly the members of its set
+pub proof fn lemma_br_rep_one(set: Set<String>, w: Seq<char>)
+    ensures br_rep(set, 1, 1, w) <==> br_member(set, w),
+{
+    lemma_br_pow_one(set, w);
+    if br_rep(set, 1, 1, w) {
+        let k = choose |k: nat| 1 <= k <= 1 && #[trigger] br_pow(set, k, w);
+        assert(k == 1);
+    }
+}
+
+/// transform_brick_with_min_max_equal: [S^n]^{1,1} represents exactly the concatenations of n members of S
+pub proof fn lemma_br_transform_all(set: Set<String>, n: nat)
+    ensures
+        forall |r: Brick, w: Seq<char>| r.min == 1 && r.max == 1
+            && (forall |x: Seq<char>| #[trigger] br_member(r.sequence@, x) <==> br_gen_spec(set, Seq::<String>::empty(), n, x))
+            ==> (#[trigger] r.br_gamma(w) <==> br_pow(set, n, w)),
+{
+    assert forall |r: Brick, w: Seq<char>| r.min == 1 && r.max == 1
+            && (forall |x: Seq<char>| #[trigger] br_member(r.sequence@, x) <==> br_gen_spec(set, Seq::<String>::empty(), n, x))
+            implies (#[trigger] r.br_gamma(w) <==> br_pow(set, n, w)) by {
+        lemma_br_rep_one(r.sequence@, w);
+        let e = Seq::<String>::empty();
+        if br_gen_spec(set, e, n, w) {
+            let (g, y) = choose |g: Seq<char>, y: Seq<char>| #![trigger g + y] br_prefix(e, g) && br_pow(set, n, y) && w =~= g + y;
+            assert(w =~= y);
+        }
+        if br_pow(set, n, w) {
+            let g = Seq::<char>::empty();
+            assert(br_prefix(e, g) && w =~= g + w);
+        }
+    }
+}
+
+/// [S]^{n,n} represents exactly the concatenations of n members of S
+pub proof fn lemma_br_rep_exact(set: Set<String>, n: nat, w: Seq<char>)
+    ensures br_rep(set, n, n, w) <==> br_pow(set, n, w),
+{
+    if br_rep(set, n, n, w) {
+        let k = choose |k: nat| n <= k <= n && #[trigger] br_pow(set, k, w);
+        assert(k == n);
+    }
+}
+
+/// break_single_brick_into_simpler_bricks: [S]^{min,max} represents what [S^min]^{1,1} [S]^{0,max-min} represents
+pub proof fn lemma_br_break(x: Brick, b1: Brick, b2: Brick, w: Seq<char>)
+    requires
+        x.br_wf(),
+        forall |u: Seq<char>| #[trigger] b1.br_gamma(u) <==> br_pow(x.sequence@, x.min as nat, u),
+        br_set_same(b2.sequence@, x.sequence@), b2.min == 0, b2.max == x.max - x.min,
+    ensures
+        x.br_gamma(w) <==> br_cat2(b1, b2, w),
+{
+    if x.br_gamma(w) {
+        let k = choose |k: nat| x.min as nat <= k <= x.max as nat && #[trigger] br_pow(x.sequence@, k, w);
+        let uv = lemma_br_pow_split(x.sequence@, x.min as nat, (k - x.min) as nat, w);
+        lemma_br_pow_same(b2.sequence@, x.sequence@, (k - x.min) as nat, uv.1);
+        assert(b1.br_gamma(uv.0));
+        assert(b2.br_gamma(uv.1));
+        assert(w =~= uv.0 + uv.1);
+    }
+    if br_cat2(b1, b2, w) {
+        let (u, v) = choose |u: Seq<char>, v: Seq<char>| #![trigger u + v] b1.br_gamma(u) && b2.br_gamma(v) && w =~= u + v;
+        let i = choose |i: nat| b2.min as nat <= i <= b2.max as nat && #[trigger] br_pow(b2.sequence@, i, v);
+        lemma_br_pow_same(b2.sequence@, x.sequence@, i, v);
+        lemma_br_pow_add(x.sequence@, x.min as nat, i, u, v);
+        assert(br_pow(x.sequence@, x.min as nat + i, w));
+    }
+}
+
+pub proof fn lemma_br_break_all(x: Brick)
+    requires x.br_wf(),
+    ensures
+        forall |b1: Brick, b2: Brick, w: Seq<char>|
+            (forall |u: Seq<char>| #[trigger] b1.br_gamma(u) <==> br_pow(x.sequence@, x.min as nat, u))
+            && br_set_same(b2.sequence@, x.sequence@) && b2.min == 0 && b2.max == x.max - x.min
+            ==> (x.br_gamma(w) <==> #[trigger] br_cat2(b1, b2, w)),
+{
+    assert forall |b1: Brick, b2: Brick, w: Seq<char>|
+            (forall |u: Seq<char>| #[trigger] b1.br_gamma(u) <==> br_pow(x.sequence@, x.min as nat, u))
+            && br_set_same(b2.sequence@, x.sequence@) && b2.min == 0 && b2.max == x.max - x.min
+            implies (x.br_gamma(w) <==> #[trigger] br_cat2(b1, b2, w)) by {
+        lemma_br_break(x, b1, b2, w);
+    }
+}
+
+// ---------------- normalize: replacing a sub-list by an equivalent one ------------------------------------------------------
+
+pub proof fn lemma_br_sum_concat(a: Seq<BrickDomain>, b: Seq<BrickDomain>)
+    ensures br_max_sum(a + b) == br_max_sum(a) + br_max_sum(b),
+    decreases b.len()
+{
+    if b.len() == 0 {
+        assert(a + b =~= a);
+    } else {
+        assert((a + b).drop_last() =~= a + b.drop_last());
+        assert((a + b).last() == b.last());
+        lemma_br_sum_concat(a, b.drop_last());
+    }
+}
+
+pub proof fn lemma_br_sum_small(l: Seq<BrickDomain>)
+    ensures
+        l.len() == 0 ==> br_max_sum(l) == 0,
+        l.len() == 1 ==> br_max_sum(l) == br_max_of(l[0]),
+        l.len() == 2 ==> br_max_sum(l) == br_max_of(l[0]) + br_max_of(l[1]),
+{
+    if l.len() == 1 {
+        assert(br_max_sum(l.drop_last()) == 0);
+    }
+    if l.len() == 2 {
+        let d = l.drop_last();
+        assert(d.len() == 1);
+        assert(br_max_sum(d.drop_last()) == 0);
+        assert(d.last() == l[0]);
+        assert(br_max_sum(d) == br_max_sum(d.drop_last()) + br_max_of(d.last()));
+        assert(l.last() == l[1]);
+        assert(br_max_sum(l) == br_max_sum(d) + br_max_of(l.last()));
+    }
+}
+
+pub proof fn lemma_br_wf_concat(a: Seq<BrickDomain>, b: Seq<BrickDomain>)
+    ensures br_list_wf(a + b) <==> (br_list_wf(a) && br_list_wf(b)),
+{
+    if br_list_wf(a + b) {
+        assert forall |i: int| 0 <= i < a.len() implies (#[trigger] a[i]).br_wf() by { assert((a + b)[i] == a[i]); }
+        assert forall |i: int| 0 <= i < b.len() implies (#[trigger] b[i]).br_wf() by { assert((a + b)[a.len() + i] == b[i]); }
+    }
+}
+
+/// a sub-list may be replaced by one that represents the same strings
+pub proof fn lemma_br_list_context(pre: Seq<BrickDomain>, mid: Seq<BrickDomain>, mid2: Seq<BrickDomain>, post: Seq<BrickDomain>)
+    requires br_list_equiv(mid, mid2),
+    ensures br_list_equiv(pre + mid + post, pre + mid2 + post),
+{
+    assert forall |w: Seq<char>| br_list_gamma(pre + mid + post, w) <==> br_list_gamma(pre + mid2 + post, w) by {
+        if br_list_gamma(pre + mid + post, w) {
+            let st = lemma_br_list_concat_elim(pre + mid, post, w);
+            let uv = lemma_br_list_concat_elim(pre, mid, st.0);
+            assert(br_list_gamma(mid2, uv.1));
+            lemma_br_list_concat_intro(pre, mid2, uv.0, uv.1);
+            lemma_br_list_concat_intro(pre + mid2, post, uv.0 + uv.1, st.1);
+            assert(w =~= (uv.0 + uv.1) + st.1);
+        }
+        if br_list_gamma(pre + mid2 + post, w) {
+            let st = lemma_br_list_concat_elim(pre + mid2, post, w);
+            let uv = lemma_br_list_concat_elim(pre, mid2, st.0);
+            assert(br_list_gamma(mid, uv.1));
+            lemma_br_list_concat_intro(pre, mid, uv.0, uv.1);
+            lemma_br_list_concat_intro(pre + mid, post, uv.0 + uv.1, st.1);
+            assert(w =~= (uv.0 + uv.1) + st.1);
+        }
+    }
+}
+
+/// a two-brick list represents the concatenations of its two bricks
+pub proof fn lemma_br_list_pair(x: Brick, y: Brick, w: Seq<char>)
+    ensures br_list_gamma(seq![BrickDomain::Value(x), BrickDomain::Value(y)], w) <==> br_cat2(x, y, w),
+{
+    let l = seq![BrickDomain::Value(x), BrickDomain::Value(y)];
+    assert(l =~= seq![BrickDomain::Value(x)].push(BrickDomain::Value(y)));
+    lemma_br_list_push(seq![BrickDomain::Value(x)], BrickDomain::Value(y), w);
+    if br_list_gamma(l, w) {
+        let (u, v) = choose |u: Seq<char>, v: Seq<char>| #![trigger u + v] br_list_gamma(seq![BrickDomain::Value(x)], u) && BrickDomain::Value(y).br_gamma(v) && w =~= u + v;
+        lemma_br_list_single(BrickDomain::Value(x), u);
+        assert(x.br_gamma(u) && y.br_gamma(v) && w =~= u + v);
+    }
+    if br_cat2(x, y, w) {
+        let (u, v) = choose |u: Seq<char>, v: Seq<char>| #![trigger u + v] x.br_gamma(u) && y.br_gamma(v) && w =~= u + v;
+        lemma_br_list_single(BrickDomain::Value(x), u);
+        assert(br_list_gamma(seq![BrickDomain::Value(x)], u) && BrickDomain::Value(y).br_gamma(v) && w =~= u + v);
+    }
+}
+
+/// decomposition of a list around position i (one brick) -- sums, well-formedness
+pub proof fn lemma_br_split1(l: Seq<BrickDomain>, i: int)
+    requires 0 <= i < l.len(),
+    ensures
+        l =~= l.subrange(0, i) + seq![l[i]] + l.subrange(i + 1, l.len() as int),
+        br_max_sum(l) == br_max_sum(l.subrange(0, i)) + br_max_of(l[i]) + br_max_sum(l.subrange(i + 1, l.len() as int)),
+{
+    let pre = l.subrange(0, i);
+    let post = l.subrange(i + 1, l.len() as int);
+    assert(l =~= pre + seq![l[i]] + post);
+    lemma_br_sum_concat(pre + seq![l[i]], post);
+    lemma_br_sum_concat(pre, seq![l[i]]);
+    lemma_br_sum_small(seq![l[i]]);
+}
+
+/// rule 1: removing a brick that represents exactly the empty string
+pub proof fn lemma_br_norm_remove(l: Seq<BrickDomain>, i: int)
+    requires
+        0 <= i < l.len(),
+        forall |x: Seq<char>| #[trigger] l[i].br_gamma(x) <==> x.len() == 0,
+    ensures
+        br_list_equiv(l.remove(i), l),
+        br_max_sum(l.remove(i)) <= br_max_sum(l),
+        br_list_wf(l) ==> br_list_wf(l.remove(i)),
+{
+    let pre = l.subrange(0, i);
+    let post = l.subrange(i + 1, l.len() as int);
+    let e = Seq::<BrickDomain>::empty();
+    lemma_br_split1(l, i);
+    assert(l.remove(i) =~= pre + e + post);
+    assert(br_list_equiv(seq![l[i]], e)) by {
+        assert forall |w: Seq<char>| br_list_gamma(seq![l[i]], w) <==> br_list_gamma(e, w) by {
+            lemma_br_list_single(l[i], w);
+            lemma_br_list_empty(w);
+        }
+    }
+    lemma_br_list_context(pre, seq![l[i]], e, post);
+    lemma_br_sum_concat(pre + e, post);
+    lemma_br_sum_concat(pre, e);
+    lemma_br_sum_small(e);
+    if br_list_wf(l) {
+        assert forall |j: int| 0 <= j < l.remove(i).len() implies (#[trigger] l.remove(i)[j]).br_wf() by {
+            if j < i { assert(l.remove(i)[j] == l[j]); } else { assert(l.remove(i)[j] == l[j + 1]); }
+        }
+    }
+}
+
+/// rule 3: replacing a brick by one that represents the same strings
+pub proof fn lemma_br_norm_update(l: Seq<BrickDomain>, i: int, t: BrickDomain)
+    requires
+        0 <= i < l.len(),
+        forall |x: Seq<char>| #[trigger] t.br_gamma(x) <==> l[i].br_gamma(x),
+    ensures
+        br_list_equiv(l.update(i, t), l),
+        br_max_sum(l.update(i, t)) == br_max_sum(l) - br_max_of(l[i]) + br_max_of(t),
+        (br_list_wf(l) && t.br_wf()) ==> br_list_wf(l.update(i, t)),
+{
+    let pre = l.subrange(0, i);
+    let post = l.subrange(i + 1, l.len() as int);
+    lemma_br_split1(l, i);
+    assert(l.update(i, t) =~= pre + seq![t] + post);
+    assert(br_list_equiv(seq![l[i]], seq![t])) by {
+        assert forall |w: Seq<char>| br_list_gamma(seq![l[i]], w) <==> br_list_gamma(seq![t], w) by {
+            lemma_br_list_single(l[i], w);
+            lemma_br_list_single(t, w);
+        }
+    }
+    lemma_br_list_context(pre, seq![l[i]], seq![t], post);
+    lemma_br_sum_concat(pre + seq![t], post);
+    lemma_br_sum_concat(pre, seq![t]);
+    lemma_br_sum_small(seq![t]);
+}
+
+/// rule 5: replacing a brick by two bricks that together represent the same strings
+pub proof fn lemma_br_norm_break(l: Seq<BrickDomain>, i: int, b1: Brick, b2: Brick)
+    requires
+        0 <= i < l.len(),
+        forall |x: Seq<char>| l[i].br_gamma(x) <==> #[trigger] br_cat2(b1, b2, x),
+    ensures
+        br_list_equiv(l.update(i, BrickDomain::Value(b1)).insert(i + 1, BrickDomain::Value(b2)), l),
+        br_max_sum(l.update(i, BrickDomain::Value(b1)).insert(i + 1, BrickDomain::Value(b2))) == br_max_sum(l) - br_max_of(l[i]) + b1.max + b2.max,
+        (br_list_wf(l) && b1.br_wf() && b2.br_wf()) ==> br_list_wf(l.update(i, BrickDomain::Value(b1)).insert(i + 1, BrickDomain::Value(b2))),
+{
+    let pre = l.subrange(0, i);
+    let post = l.subrange(i + 1, l.len() as int);
+    let mid2 = seq![BrickDomain::Value(b1), BrickDomain::Value(b2)];
+    let r = l.update(i, BrickDomain::Value(b1)).insert(i + 1, BrickDomain::Value(b2));
+    lemma_br_split1(l, i);
+    assert(r =~= pre + mid2 + post);
+    assert(br_list_equiv(seq![l[i]], mid2)) by {
+        assert forall |w: Seq<char>| br_list_gamma(seq![l[i]], w) <==> br_list_gamma(mid2, w) by {
+            lemma_br_list_single(l[i], w);
+            lemma_br_list_pair(b1, b2, w);
+        }
+    }
+    lemma_br_list_context(pre, seq![l[i]], mid2, post);
+    lemma_br_sum_concat(pre + mid2, post);
+    lemma_br_sum_concat(pre, mid2);
+    lemma_br_sum_small(mid2);
+    if br_list_wf(l) && b1.br_wf() && b2.br_wf() {
+        assert forall |j: int| 0 <= j < r.len() implies (#[trigger] r[j]).br_wf() by {
+            if j < i { assert(r[j] == l[j]); } else if j == i { } else if j == i + 1 { } else { assert(r[j] == l[j - 1]); }
+        }
+    }
+}
+
+/// rules 2 and 4: replacing two neighbouring bricks by one that represents their concatenations
+pub proof fn lemma_br_norm_merge(l: Seq<BrickDomain>, i: int, x: Brick, y: Brick, m: Brick)
+    requires
+        0 <= i, i + 1 < l.len(),
+        l[i] is Value, l[i + 1] is Value,
+        x.br_copy(&l[i]->Value_0), y.br_copy(&l[i + 1]->Value_0),
+        forall |w: Seq<char>| #[trigger] m.br_gamma(w) <==> br_cat2(x, y, w),
+    ensures
+        br_list_equiv(l.update(i, BrickDomain::Value(m)).remove(i + 1), l),
+        br_max_sum(l.update(i, BrickDomain::Value(m)).remove(i + 1)) == br_max_sum(l) - x.max - y.max + m.max,
+        x.max + y.max <= br_max_sum(l),
+        (br_list_wf(l) && m.br_wf()) ==> br_list_wf(l.update(i, BrickDomain::Value(m)).remove(i + 1)),
+{
+    let pre = l.subrange(0, i);
+    let post = l.subrange(i + 2, l.len() as int);
+    let mid = seq![l[i], l[i + 1]];
+    let mid2 = seq![BrickDomain::Value(m)];
+    let r = l.update(i, BrickDomain::Value(m)).remove(i + 1);
+    assert(l =~= pre + mid + post);
+    assert(r =~= pre + mid2 + post);
+    assert(br_list_equiv(mid, mid2)) by {
+        assert forall |w: Seq<char>| br_list_gamma(mid, w) <==> br_list_gamma(mid2, w) by {
+            lemma_br_list_single(BrickDomain::Value(m), w);
+            assert(mid =~= seq![BrickDomain::Value(l[i]->Value_0), BrickDomain::Value(l[i + 1]->Value_0)]);
+            lemma_br_list_pair(l[i]->Value_0, l[i + 1]->Value_0, w);
+            // copies represent the same strings
+            assert(br_cat2(l[i]->Value_0, l[i + 1]->Value_0, w) <==> br_cat2(x, y, w)) by {
+                if br_cat2(l[i]->Value_0, l[i + 1]->Value_0, w) {
+                    let (u, v) = choose |u: Seq<char>, v: Seq<char>| #![trigger u + v] l[i]->Value_0.br_gamma(u) && l[i + 1]->Value_0.br_gamma(v) && w =~= u + v;
+                    assert(x.br_gamma(u) && y.br_gamma(v) && w =~= u + v);
+                }
+                if br_cat2(x, y, w) {
+                    let (u, v) = choose |u: Seq<char>, v: Seq<char>| #![trigger u + v] x.br_gamma(u) && y.br_gamma(v) && w =~= u + v;
+                    assert(l[i]->Value_0.br_gamma(u) && l[i + 1]->Value_0.br_gamma(v) && w =~= u + v);
+                }
+            }
+        }
+    }
+    lemma_br_list_context(pre, mid, mid2, post);
+    lemma_br_sum_concat(pre + mid, post);
+    lemma_br_sum_concat(pre, mid);
+    lemma_br_sum_small(mid);
+    lemma_br_sum_concat(pre + mid2, post);
+    lemma_br_sum_concat(pre, mid2);
+    lemma_br_sum_small(mid2);
+    if br_list_wf(l) && m.br_wf() {
+        assert forall |j: int| 0 <= j < r.len() implies (#[trigger] r[j]).br_wf() by {
+            if j < i { assert(r[j] == l[j]); } else if j == i { } else { assert(r[j] == l[j + 1]); }
+        }
+    }
+}
+
+/// rule 2: [A]^{1,1} [B]^{1,1} represents what [A.B]^{1,1} represents
+pub proof fn lemma_br_bound_one(x: Brick, y: Brick, m: Brick, w: Seq<char>)
+    requires
+        x.min == 1, x.max == 1, y.min == 1, y.max == 1, m.min == 1, m.max == 1,
+        forall |z: Seq<char>| #[trigger] br_member(m.sequence@, z) <==> br_product(x.sequence@, y.sequence@, z),
+    ensures
+        m.br_gamma(w) <==> br_cat2(x, y, w),
+{
+    lemma_br_rep_one(m.sequence@, w);
+    if br_product(x.sequence@, y.sequence@, w) {
+        let (u, v) = choose |u: Seq<char>, v: Seq<char>| #![trigger u + v] br_member(x.sequence@, u) && br_member(y.sequence@, v) && w =~= u + v;
+        lemma_br_rep_one(x.sequence@, u);
+        lemma_br_rep_one(y.sequence@, v);
+        assert(x.br_gamma(u) && y.br_gamma(v) && w =~= u + v);
+    }
+    if br_cat2(x, y, w) {
+        let (u, v) = choose |u: Seq<char>, v: Seq<char>| #![trigger u + v] x.br_gamma(u) && y.br_gamma(v) && w =~= u + v;
+        lemma_br_rep_one(x.sequence@, u);
+        lemma_br_rep_one(y.sequence@, v);
+        assert(br_member(x.sequence@, u) && br_member(y.sequence@, v) && w =~= u + v);
+    }
+}
+
+/// copies have the same bound sum; two copies of one list are copies of each other
+pub proof fn lemma_br_sum_copy(a: Seq<BrickDomain>, b: Seq<BrickDomain>)
+    requires br_list_copy(a, b),
+    ensures br_max_sum(a) == br_max_sum(b),
+    decreases a.len()
+{
+    if a.len() > 0 {
+        assert(br_list_copy(a.drop_last(), b.drop_last())) by {
+            assert forall |i: int| 0 <= i < a.drop_last().len() implies (#[trigger] a.drop_last()[i]).br_copy(&b.drop_last()[i]) by {
+                assert(a[i].br_copy(&b[i]));
+            }
+        }
+        lemma_br_sum_copy(a.drop_last(), b.drop_last());
+        assert(a[a.len() - 1].br_copy(&b[a.len() - 1]));
+    }
+}
+
+/// two neighbouring upper bounds are covered by the sum of all upper bounds
+pub proof fn lemma_br_sum_two(l: Seq<BrickDomain>, i: int)
+    requires 0 <= i, i + 1 < l.len(),
+    ensures br_max_of(l[i]) + br_max_of(l[i + 1]) <= br_max_sum(l),
+{
+    let pre = l.subrange(0, i);
+    let post = l.subrange(i + 2, l.len() as int);
+    let mid = seq![l[i], l[i + 1]];
+    assert(l =~= pre + mid + post);
+    lemma_br_sum_concat(pre + mid, post);
+    lemma_br_sum_concat(pre, mid);
+    lemma_br_sum_small(mid);
+}
+
+/// a list of bricks with small upper bounds has a small sum of upper bounds
+pub proof fn lemma_br_small_sum(l: Seq<BrickDomain>)
+    requires br_list_small(l),
+    ensures br_max_sum(l) <= INTERVAL_THRESHOLD * l.len(),
+    decreases l.len()
+{
+    if l.len() > 0 {
+        assert(br_list_small(l.drop_last())) by {
+            assert forall |i: int| 0 <= i < l.drop_last().len() implies br_max_of(#[trigger] l.drop_last()[i]) <= INTERVAL_THRESHOLD by { assert(l.drop_last()[i] == l[i]); }
+        }
+        lemma_br_small_sum(l.drop_last());
+        assert(br_max_of(l[l.len() - 1]) <= INTERVAL_THRESHOLD);
+    }
+}
+
+/// values that `==` identifies represent the same strings
+pub proof fn lemma_br_same_gamma(a: BricksDomain, b: BricksDomain, w: Seq<char>)
+    requires a.br_same(&b),
+    ensures a.br_gamma(w) == b.br_gamma(w),
+{
+    if a is Value {
+        let x = a->Value_0@;
+        let y = b->Value_0@;
+        assert forall |i: int, z: Seq<char>| 0 <= i < x.len() implies (#[trigger] x[i].br_gamma(z) <==> y[i].br_gamma(z)) by {
+            assert(x[i].br_same(&y[i]));
+            if x[i] is Value {
+                let p = x[i]->Value_0;
+                let q = y[i]->Value_0;
+                assert(p.br_gamma(z) <==> q.br_gamma(z)) by {
+                    if p.br_gamma(z) {
+                        let k = choose |k: nat| p.min as nat <= k <= p.max as nat && #[trigger] br_pow(p.sequence@, k, z);
+                        lemma_br_pow_same(p.sequence@, q.sequence@, k, z);
+                    }
+                    if q.br_gamma(z) {
+                        let k = choose |k: nat| q.min as nat <= k <= q.max as nat && #[trigger] br_pow(q.sequence@, k, z);
+                        lemma_br_pow_same(p.sequence@, q.sequence@, k, z);
+                    }
+                }
+            }
+        }
+        if br_list_gamma(x, w) { lemma_br_list_mono(x, y, w); }
+        if br_list_gamma(y, w) { lemma_br_list_mono(y, x, w); }
+    }
+}
+
+/// a copy of a value (derive(Clone)) represents the same strings and is as well-formed
+pub proof fn lemma_br_value_copy(c: BricksDomain, a: BricksDomain, w: Seq<char>)
+    requires c.br_copy(&a),
+    ensures c.br_gamma(w) == a.br_gamma(w), a.br_wf() ==> c.br_wf(),
+{
+    if a is Value {
+        lemma_br_list_copy_gamma(c->Value_0@, a->Value_0@, w);
+        if a.br_wf() {
+            assert forall |i: int| 0 <= i < c->Value_0@.len() implies (#[trigger] c->Value_0@[i]).br_wf() by { assert(c->Value_0@[i].br_copy(&a->Value_0@[i])); }
+        }
+    }
+}
